@@ -4,7 +4,7 @@
 # 2. applies the patch to /repo, runs the named quick checks, reverts.
 set -u
 id=$1; n=$2; shift 2
-wt=/tmp/wt/$id; sd=$wt/_seed/$n
+wt=/tmp/wt/$id; sd=$wt/_seed/$n; [ -d "$sd" ] || sd=/verif/seeded/$id-$n
 [ -f $sd/patch.diff ] || { echo "no patch at $sd"; exit 9; }
 cd $wt && git checkout -q -- . 
 run() { (cd $wt && PYTHONPATH=$wt/src JAX_PLATFORMS=cpu timeout 1500 /venv/bin/python $sd/demo.py > /tmp/seed_demo.out 2>&1; echo $?); }
